@@ -198,6 +198,11 @@ pub fn small_scope_wrap(ctx: &mut Ctx, mut f: impl FnMut(&mut Ctx, &str, &Opt)) 
                     2 => { o.si = "    ".into(); }
                     _ => {}
                 }
+                // every 5th case: a non-empty indent of display width 0 (escape-only / zero-width)
+                if (i + r) % 5 == 0 {
+                    o.ii = "\x1b[34m".into();
+                    o.si = "\u{200b}".into();
+                }
                 f(ctx, s, &o);
                 n += 1;
             }
